@@ -54,15 +54,22 @@ for n_, o_ in OPS:
         if n_ == "sort" and nlen == 3:
             o.tiers = ("thorough",); o.mem_gb = 20; o.timeout = 3600
         OBLIGATIONS.append(o)
+# states with more spare capacity than one slot: the shrink rule (more than n/2 spare after the removal) first
+# separates "capacity := item count" from other candidates (e.g. halving) at 3 items left in 5 slots
+for n_, o_, nlen, spare in [("pop", "OP_POP", 4, 1), ("pop", "OP_POP", 4, 2), ("pop", "OP_POP", 3, 2), ("rem", "OP_REM", 4, 1), ("rem", "OP_REM", 3, 2),
+                            ("push", "OP_PUSH", 3, 2), ("push", "OP_PUSH", 4, 1), ("getset", "OP_GETSET", 4, 1), ("iter", "OP_ITER", 4, 2), ("resize", "OP_RESIZE", 4, 1)]:
+    OBLIGATIONS.append(AN(n_, o_, 4, nlen, spare, ("thorough",) if n_ == "resize" else P, timeout=1800 if n_ == "resize" else 900))
+for ix in range(-4, 4):
+    o = AN("pop_at", "OP_POP_AT", 4, 4, 1, P, timeout=900); o.name += ".i%d" % ix; o.defs.append("IDXC=%d" % ix); OBLIGATIONS.append(o)
 def TU(name, op, nlen, idx=None, **kw):
     lm = 8
     us = ["Type_Scan.0:40", "Type_Scan.1:40", "strcmp.0:26", "Tuple_Len.0:%d" % (lm + 2), "obj_index.0:6", "vcw_new.0:40", "vcw_realloc.0:40", "vcw_check.0:40", "vcw_check.1:5", "vcw_find.0:5", "vcw_live.0:5",
-          "verif_memmove_w.0:%d" % (lm + 2), "verif_memmove_w.1:%d" % (lm + 2), "Tuple_Sort_Part:%d" % (nlen + 1), "Tuple_Sort_Partition.0:%d" % (nlen + 2)]
+          "verif_memmove_w.0:%d" % (lm + 2), "verif_memmove_w.1:%d" % (lm + 2), "Tuple_Sort_Part:%d" % (nlen + 1), "Tuple_Sort_Partition.0:%d" % (nlen + 2), "Tuple_Rem.0:%d" % (nlen + 2)]
     defs = ["OP=%s" % op, "NLEN=%d" % nlen, "VCW=24", "VCW_BLOCKS=3"] + (["IDXC=%d" % idx] if idx is not None else [])
     return Ob("tuple.%s.n%d%s" % (name, nlen, "" if idx is None else ".i%d" % idx), "C04/tuple_step.c", defs=defs, replace=["Tuple.c"], srcs_extra=["env_vcapw.c"],
-              unwind=lm + 2, unwindset=us, checks=["bounds", "pointer"], tiers=("quick", "thorough"), timeout=900, **kw)
+              unwind=lm + 2, unwindset=us, checks=["bounds", "pointer"], tiers=("quick", "thorough"), timeout=900, mem_gb=16 if name == "rem" else 6, **kw)
 TOPS = [("push", "OP_PUSH"), ("pop", "OP_POP"), ("push_at", "OP_PUSH_AT"), ("pop_at", "OP_POP_AT"), ("getset", "OP_GETSET"), ("rem", "OP_REM"), ("mem", "OP_MEM"), ("concat", "OP_CONCAT"),
-        ("resize", "OP_RESIZE"), ("sort", "OP_SORT"), ("iter", "OP_ITER"), ("bad_index", "OP_BAD_INDEX")]
+        ("resize", "OP_RESIZE"), ("sort", "OP_SORT"), ("iter", "OP_ITER"), ("bad_index", "OP_BAD_INDEX"), ("mark", "OP_MARK")]
 TUPLE = [TU("pop_empty", "OP_POP_EMPTY", 0)]
 for nm, op in TOPS:
     for nlen in range(0, 4):
@@ -73,6 +80,7 @@ for nm, op in TOPS:
                 TUPLE.append(TU(nm, op, nlen, ix))
         else:
             TUPLE.append(TU(nm, op, nlen))
+TUPLE += [TU("rem_calls", "OP_REM_CALLS", n_, replace_calls=["Tuple_Pop_At:verif_pop_at_stub"]) for n_ in range(0, 4)]
 def LI(name, op, nlen, mlen=None, **kw):
     us = ["Type_Scan.0:40", "Type_Scan.1:40", "strcmp.0:26", "node_index.0:10", "pool_calloc.0:10", "pool_live_count.0:10", "owns.0:26", "owns.1:12", "owns.2:12", "elem_live_count.0:26",
           "agrees.0:10", "snapshot.0:10", "snapshot.1:10", "verif_on_throw.0:10", "verif_on_throw.1:10", "List_At.0:6", "List_At.1:6", "memcpy.0:8", "memcpy.1:40"]
